@@ -94,7 +94,9 @@ class Class:
             out += "/**\n * %s\n */\n" % self.comment
         out += "%s %s" % (self.kind, self.name)
         if self.bases:
-            out += " : " + ", ".join("%s%s %s" % (a, " virtual" if v else "", b) for b, a, v in self.bases)
+            # both orders of the access specifier and `virtual` ([class.derived]: `public virtual B` / `virtual public B`)
+            out += " : " + ", ".join(("virtual %s %s" % (a, b) if v and (len(b) + len(self.name) + i) % 2 else "%s%s %s" % (a, " virtual" if v else "", b))
+                                      for i, (b, a, v) in enumerate(self.bases))
         out += " {\n"
         cur = None
         for it in self.items:
@@ -276,7 +278,17 @@ def gen_header(rng, n_classes=3, sections=("__published", "public"), allow_inher
 
         # constructors
         if rng.random() < 0.7:
-            c.items.append(Method(c.name, None, params(), rng.choice(sections), kind="ctor"))
+            ps = params()
+            if rng.random() < 0.3:
+                # a constructor whose first parameter is the class itself: a copy constructor exactly if every further parameter has a
+                # default argument ([class.copy.ctor]/1)
+                extra = [Param("int", "idx"), Param("bool", "deep")][:rng.choice([1, 2])]
+                mode = rng.choice(["all-defaulted", "last-defaulted", "none-defaulted"])
+                for k, q in enumerate(extra):
+                    if mode == "all-defaulted" or (mode == "last-defaulted" and k == len(extra) - 1):
+                        q.default = "3" if q.ty == "int" else "true"
+                ps = [Param("const %s &" % c.name, "src")] + extra
+            c.items.append(Method(c.name, None, ps, rng.choice(sections), kind="ctor"))
         if rng.random() < 0.3:
             c.items.append(Method("~" + c.name, None, [], rng.choice(sections), kind="dtor", virtual=allow_virtual and rng.random() < 0.5))
         sigs = set()
